@@ -31,6 +31,7 @@ structure StepCase where
   bsc : List Nat
   n : Nat
   irq : Option (List (Nat × Nat))
+  modules : Bool := false
 
 def parseStep (toks : List String) : StepCase :=
   let pc := hexD ((field? toks "pc").getD "0")
@@ -48,8 +49,15 @@ def parseStep (toks : List String) : StepCase :=
       | [a, bytes] => (hexBytes bytes).zipIdx.map (fun (b, k) => ((hexD a + k) % 2^24, b))
       | _ => []))
   let bus := pokes.foldl (fun b (a, v) => Spec.poke b a (BitVec.ofNat 8 v)) bus
+  -- tcr=<h>: an earlier guest write of 8TCR0
+  let bus := match field? toks "tcr" with
+    | some t =>
+      let v := BitVec.ofNat 8 (hexD t)
+      let bus := Spec.poke bus 0xffff80 v
+      { bus with timer := bus.timer.updateTcr v }
+    | none => bus
   { cpu := { regs := regsOf ers, ccr := BitVec.ofNat 8 ccr, pc := BitVec.ofNat 32 pc, opc := BitVec.ofNat 32 pc, bus := bus },
-    bsc := bsc, n := n, irq := irq }
+    bsc := bsc, n := n, irq := irq, modules := (field? toks "mod").isSome }
 
 def sortedCells (m : Mem) : List (Nat × BitVec 8) :=
   (m.ov.toList.toArray.qsort (fun a b => a.1 < b.1)).toList
@@ -146,7 +154,13 @@ partial def modelLoop (sc : StepCase) (k : Nat) (r : ModelRun) : String × Optio
     if k ≥ sc.n then ("ok", some r) else
     let r := { r with trace := r.trace ++ [r.cpu.pc.toNat] }
     match step r.cpu with
-    | .ok c cpu => modelLoop sc (k + 1) { r with cpu := cpu, cost := r.cost + c.toNat }
+    | .ok c cpu =>
+      -- as in Cpu::run: `state * 3` (u8), then update_modules
+      let cpu := if sc.modules then
+          let (b, reqs) := cpu.bus.updateModules ((c.toNat * 3) % 256)
+          { cpu with bus := b, pending := cpu.pending ++ reqs }
+        else cpu
+      modelLoop sc (k + 1) { r with cpu := cpu, cost := r.cost + c.toNat }
     | .err => (s!"err@{toHex k}", none)
     | .panic => (s!"panic@{toHex k}", none)
 
